@@ -20,5 +20,5 @@ std::string gen_password(Rng &r);
 J gen_tunnel(uint64_t seed, const J &ov);
 struct World;
 World *build_tunnel(const J &plan);
-void gen_client_cfg(Rng &r, J &c, bool allow_raw, bool allow_auto_type);
+void gen_client_cfg(Rng &r, J &c, bool allow_raw, bool allow_auto_type, int domlen, int min_frag);
 int fragsize_capacity(const std::string &qtype, const std::string &enc);
